@@ -198,7 +198,9 @@ theorem asciiClass_ok : CharsOK asciiClass := by
   · decide
   · intro c hc
     simp only [List.mem_cons, List.not_mem_nil, or_false] at hc
-    rcases hc with rfl | rfl | rfl | rfl | rfl | rfl | rfl | rfl | rfl | rfl | rfl | rfl | rfl | rfl | rfl | rfl | rfl | rfl | rfl <;> decide
+    rcases hc with rfl | rfl | rfl | rfl | rfl | rfl | rfl | rfl | rfl | rfl | rfl | rfl | rfl | rfl | rfl | rfl | rfl | rfl | rfl | rfl <;> decide
+  · intro c hc
+    simp [asciiClass, Char.isAlphanum, hc]
 
 -- `(!{x} in %d%: (AX ({x} & (~EF_a))))` round-trips
 example : TreeOK asciiClass (.hyb .bind ['x'] (some ['d']) (.un .ax (.bin .and (.atom (.var ['x'])) (.un .not (.atom (.prop ['E','F','_','a']))))))
